@@ -1588,6 +1588,15 @@ func (e *Encoder) atReturn(fr *frame, x *ssa.Return) {
 				continue
 			}
 		}
+		if err := e.w.parseClause(e.contract, cl); err != nil {
+			panic(contractError{err})
+		}
+		if cl.Expr != nil && fr.fn.Pkg != nil && x.Pos().IsValid() {
+			// the clause applies at the return statements where the variables it names are in scope
+			if err := types.CheckExpr(e.w.Fset, fr.fn.Pkg.Pkg, x.Pos(), cl.Expr, nil); err != nil && strings.Contains(err.Error(), "undefined:") {
+				continue
+			}
+		}
 		env := e.contractEnv(fr, e.contract, nil, e.cur, e.entry)
 		env.atInstr = x
 		for _, r := range x.Results {
